@@ -244,6 +244,7 @@ class World:
         sp = self.scn['sprofiles'][idx - 1]
         data = zkutils.get(self.admin, z.path.server(s)) or {}
         sp_spell, doc = spell(sp['cap'], self.rng)
+        sp_spell = sp_spell + [sorted(sp.get('traits', []))]     # 4th element: the traits it reports
         # the spellings the master may legitimately hold: a registration it is told
         # about at once (presence watch -> reload_server), or that a new master will
         # read, supersedes the earlier ones; one that arrives while watch delivery
@@ -306,7 +307,7 @@ class World:
     def ev_CreateServer(self, s, idx):
         self.obs_frozen.discard(s)
         self._create_server(s, idx)
-        zero = [[0, 'M'], [0, '%'], [0, 'M']]
+        zero = [[0, 'M'], [0, '%'], [0, 'M'], []]
         if self._lagging():
             # the master still holds what it read before: not judged until the
             # `servers` event has been delivered
